@@ -351,6 +351,41 @@ func RunC07(rc *harness.RunCtx) harness.Outcome {
 				return fail("value-repeats-across-sessions", key, "party %d sent the same value at %s in two signing sessions on the same key with different random streams", i, l.Path)
 			}
 		}
+	case "cross-recipient":
+		// what a party sends privately to different recipients in one round are separate
+		// draws: no random leaf of a unicast may be the same for two recipients
+		byCID := map[string][]wireMsg{}
+		for _, w := range base.res.log {
+			if w.From == i && !w.Broadcast && strings.HasPrefix(w.CID, "A-") && inOnly(sc, w.CID) && !strings.HasPrefix(stripNS(w.CID), "agg/") {
+				byCID[w.CID] = append(byCID[w.CID], w)
+			}
+		}
+		for cid, ws := range byCID {
+			for a := 0; a < len(ws); a++ {
+				for b := a + 1; b < len(ws); b++ {
+					ta, e1 := cbor.ParseDeep(ws[a].Body)
+					tb, e2 := cbor.ParseDeep(ws[b].Body)
+					if e1 != nil || e2 != nil {
+						continue
+					}
+					for _, l := range ta.Leaves() {
+						if l.Node.Major != 2 || len(l.Node.Bytes) < 16 {
+							continue
+						}
+						o, ok := tb.Find(l.Path)
+						if !ok || !bytes.Equal(o.Node.Bytes, l.Node.Bytes) {
+							probes["cross_recipient_values_distinct"]++
+							continue
+						}
+						if isDerivedLeaf(scName, stripNS(cid), l.Path) {
+							continue
+						}
+						key := fmt.Sprintf("%s|%s|%s", scName, stripNS(cid), cbor.NormPath(l.Path))
+						return fail("value-repeats-across-recipients", key, "party %d sent the same value (%x...) at %s to recipients %d and %d in one round", i, l.Node.Bytes[:8], l.Path, ws[a].To, ws[b].To)
+					}
+				}
+			}
+		}
 	default:
 		return harness.Outcome{HarnessErr: fmt.Errorf("unknown sub-check %q", sub)}
 	}
@@ -366,7 +401,7 @@ func inOnly(sc *c04Scenario, cid string) bool {
 	return false
 }
 
-var c07Subs = []string{"sensitivity", "hidden-source", "short-read", "reader-failure", "cross-session"}
+var c07Subs = []string{"sensitivity", "hidden-source", "short-read", "reader-failure", "cross-session", "cross-recipient"}
 
 func c07Workload(scName string, heavy bool) harness.Workload {
 	return harness.Workload{Name: "paired-" + scName, Run: RunC07,
